@@ -11,6 +11,7 @@ import (
 	"net/http"
 	"net/http/httptest"
 	"reflect"
+	"sort"
 	"strings"
 	"sync"
 	"sync/atomic"
@@ -422,8 +423,25 @@ func vfRunWriter(rep *verifkit.Report, rng *verifkit.Rand, body *vfBody, failAt 
 		N   int
 		Err bool
 	}
+	reqKind := rng.Intn(3) // 0: POST with a body, 1: GET without a body (Connect GET), 2: POST with http.NoBody
+	var seenReq [2]string
+	seenIdx := 0
 	handler := func(log *[]wr) http.Handler {
 		return http.HandlerFunc(func(rw http.ResponseWriter, r *http.Request) {
+			// what the application sees of the request must not depend on tracing either
+			var keys []string
+			for k := range r.Header {
+				keys = append(keys, k)
+			}
+			sort.Strings(keys)
+			desc := fmt.Sprintf("%s %s content-length=%d te=%v", r.Method, r.URL.String(), r.ContentLength, r.TransferEncoding)
+			for _, k := range keys {
+				desc += fmt.Sprintf(" | %s=%q", k, r.Header[k])
+			}
+			if b, err := io.ReadAll(r.Body); err == nil {
+				desc += fmt.Sprintf(" | body=%q", b)
+			}
+			seenReq[seenIdx] = desc
 			for k, v := range body.headers() {
 				rw.Header()[k] = v
 			}
@@ -458,10 +476,21 @@ func vfRunWriter(rep *verifkit.Report, rng *verifkit.Rand, body *vfBody, failAt 
 	run := func(traced bool, coll *vfCollector) (*vfFakeWriter, []wr) {
 		fw := &vfFakeWriter{h: http.Header{}, failAt: failAt}
 		var log []wr
-		req := httptest.NewRequest("POST", "/svc/Method", strings.NewReader(""))
+		var req *http.Request
+		switch reqKind {
+		case 0:
+			req = httptest.NewRequest("POST", "/svc/Method", strings.NewReader(""))
+		case 1:
+			req = httptest.NewRequest("GET", "/svc/Method?encoding=proto&message=AAA", http.NoBody)
+		default:
+			req = httptest.NewRequest("POST", "/svc/Method", http.NoBody)
+		}
 		req.Header.Set("X-Test-Case-Name", "Suite/T")
+		req.Header.Set("X-Other", "kept")
 		h := handler(&log)
+		seenIdx = 0
 		if traced {
+			seenIdx = 1
 			h = TracingHandler(h, coll)
 		}
 		h.ServeHTTP(fw, req)
@@ -489,6 +518,11 @@ func vfRunWriter(rep *verifkit.Report, rng *verifkit.Rand, body *vfBody, failAt 
 	if !reflect.DeepEqual(plain.calls, traced.calls) {
 		rep.Violation("body/writer/partition-altered", "the real writer was called with a different partition of the bytes", w)
 	}
+	if seenReq[0] != seenReq[1] {
+		w["request_seen_without_tracing"], w["request_seen_with_tracing"] = seenReq[0], seenReq[1]
+		rep.Violation(fmt.Sprintf("body/writer/request-altered/kind-%d", reqKind), "the handler sees a different request (method, URL, headers, content length or body) when tracing is on", w)
+	}
+	rep.Count(fmt.Sprintf("request_kind_%d", reqKind), 1)
 	pstatus, tstatus := plain.status, traced.status
 	if pstatus == 0 {
 		pstatus = 200 // net/http applies 200 when the handler never wrote; the tracer makes that explicit
